@@ -200,6 +200,13 @@ def confirm_structure(vio, pid):
         s.check()
         model = s.model()
     J = vio.get('spec_json') or witness.spec_json(spec, model)
+    for k, size in (vio.get('pad') or {}).items():
+        # make function k's encoded body about `size` bytes long (i32.const 0; drop = 3 bytes per pair)
+        ops = J['funcs'][int(k)]['ops']
+        pad = []
+        for _ in range(max(0, int(size) // 3)):
+            pad += [{'instruction': 'I32Const', 'fields': {'0': '0'}}, {'instruction': 'Drop', 'fields': {}}]
+        J['funcs'][int(k)]['ops'] = ops[:-1] + pad + ops[-1:]
     steps = vio.get('steps', ('emit',))
     config = vio.get('config')
     res = {}
@@ -241,7 +248,7 @@ def confirm_structure(vio, pid):
         vio['reproduced'] = None
     else:
         vio['reproduced'] = False
-    for k in ('spec', 'model', 'pc', 'native_check', 'spec_json'):
+    for k in ('spec', 'model', 'pc', 'native_check', 'spec_json', 'pad'):
         vio.pop(k, None)
 
 
